@@ -100,7 +100,7 @@ impl Monitor for C16 {
         "cwv-direct"
     }
     fn histories(&self, tier: Tier) -> u64 {
-        tier.pick(300, 60_000)
+        tier.pick(1_000, 60_000)
     }
     fn mandatory(&self) -> Vec<&'static str> {
         vec![
